@@ -1,4 +1,5 @@
 import Femio.Lemmas.C20Lemmas
+import Femio.Lemmas.C20Canon
 
 /-! C20 — mesh compressor: checker soundness, face cancellation, node renumbering, data transfer.
     Property theorems (model: `Femio/Model/Compress.lean`). -/
@@ -150,6 +151,37 @@ theorem C20_merge_closed (cells : List Cell) (hbal : ∀ c ∈ cells, balancedCe
   omega
 
 example : (∀ c ∈ twoTetCells, balancedCell c = true) ∧ balancedCell (mergeCells twoTetCells) = true := by decide
+
+/-- **C20_merge_closed_additive_nodup**: `C20_merge_closed_additive` with the two class-consistency hypotheses
+discharged: when no face present repeats a node (what `check_polyhedron` enforces), `canon` is a complete rotation
+invariant, so the reversed class is well defined and reversal is an involution on classes
+(`canon_reverse_congr`, `canon_reverse_symm`).  The face cancellation of `merge_polyhedrons` then preserves the total
+of every face weight that is constant on `canon`-classes and odd under reversal. -/
+theorem C20_merge_closed_additive_nodup (cells : List Cell) (φ : Face → ℤ)
+    (hcls : ∀ f g, canon f = canon g → φ f = φ g)
+    (hodd : ∀ f ∈ cells.flatten, φ f.reverse = - φ f)
+    (hnd : ∀ f ∈ cells.flatten, f.Nodup) :
+    ((mergeCells cells).map φ).sum = ((cells.flatten).map φ).sum :=
+  C20_merge_closed_additive cells φ hcls hodd
+    (fun f hf g hg e => canon_reverse_congr (hnd f hf) (hnd g hg) e)
+    (fun f hf g hg e => canon_reverse_symm (hnd f hf) (hnd g hg) e)
+
+/-- **C20_merge_closed_nodup**: if every input cell is closed (each directed edge as often as its reverse) and no
+face repeats a node, the merged cell is closed — no further hypothesis on `canon`. -/
+theorem C20_merge_closed_nodup (cells : List Cell) (hbal : ∀ c ∈ cells, balancedCell c = true)
+    (hnd : ∀ f ∈ cells.flatten, f.Nodup) :
+    Bal (edgesOf (mergeCells cells)) :=
+  C20_merge_closed cells hbal
+    (fun f hf g hg e => canon_reverse_congr (hnd f hf) (hnd g hg) e)
+    (fun f hf g hg e => canon_reverse_symm (hnd f hf) (hnd g hg) e)
+
+/-- non-vacuity: the two glued tetrahedra satisfy both hypotheses of `C20_merge_closed_nodup` -/
+example : (∀ c ∈ twoTetCells, balancedCell c = true) ∧ (∀ f ∈ twoTetCells.flatten, nodupB f = true) ∧
+    balancedCell (mergeCells twoTetCells) = true := by decide
+
+example : Bal (edgesOf (mergeCells twoTetCells)) :=
+  C20_merge_closed_nodup twoTetCells (by decide) (fun f hf => (nodupB_iff f).mp ((by decide :
+    ∀ f ∈ twoTetCells.flatten, nodupB f = true) f hf))
 
 /-! ### 3. remove_one_edge_from_polyhedron: merging two faces along a shared edge -/
 
